@@ -284,7 +284,7 @@ pub fn write_step(rng: &mut Rng, ki: Option<usize>, vi: usize, len: u64, cfg: &W
                 }
                 if rng.chance(1, 40) {
                     // a record larger than any reader buffer (one index line > 64 KiB)
-                    o["meta"] = json!({"big": "m".repeat(70_000 + rng.below(5000) as usize)});
+                    o["meta"] = json!({"big": if rng.chance(1, 2) { "m".repeat(70_000 + rng.below(5000) as usize) } else { "\u{e9}\u{65e5}m".repeat(12_000 + rng.below(800) as usize) }});
                 }
                 if rng.chance(1, 3) {
                     o["raw"] = json!(hex::encode(rng.bytes_below(40)));
